@@ -283,9 +283,23 @@ def external(terms, timeout, consts):
     return {"verdict": v, "engine": n, "model": model}
 
 
+INPROC = {"on": False}      # whole-run explorations make thousands of small feasibility queries: tried in-process first (0.5 s), forked only if undecided
+
+
 def quick_feasible(terms, timeout=3.0):
     STATS["queries"] += 1
     t0 = time.time()
+    if INPROC["on"]:
+        sv = z3.Solver()
+        sv.set("timeout", 500)
+        sv.add(*terms)
+        try:
+            rr = str(sv.check())
+        except z3.Z3Exception:
+            rr = "unknown"
+        if rr in ("sat", "unsat"):
+            STATS["solver_s"] += time.time() - t0
+            return rr
     r, _ = _forked_check(list(terms), timeout, False, None, {})
     STATS["solver_s"] += time.time() - t0
     return r
@@ -296,6 +310,22 @@ def feasible_int_value(terms, t, timeout=5.0):
     c = z3.Int("cval!probe")
     STATS["queries"] += 1
     t0 = time.time()
+    if INPROC["on"]:
+        sv = z3.Solver()
+        sv.set("timeout", 500)
+        sv.add(*terms)
+        sv.add(c == (t if t.sort() == z3.IntSort() else z3.ToInt(t)))
+        try:
+            rr = str(sv.check())
+        except z3.Z3Exception:
+            rr = "unknown"
+        if rr == "unsat":
+            STATS["solver_s"] += time.time() - t0
+            return None
+        if rr == "sat":
+            v = sv.model().eval(c, model_completion=True)
+            STATS["solver_s"] += time.time() - t0
+            return v.as_long()
     r, mdl = _forked_check(list(terms) + [c == (t if t.sort() == z3.IntSort() else z3.ToInt(t))], timeout, True, {"cval!probe": c}, {})
     STATS["solver_s"] += time.time() - t0
     if r != "sat" or not mdl or "cval!probe" not in mdl:
